@@ -37,6 +37,11 @@ type c16Cfg struct {
 	// Toggle (smtp mode): debug logging is OFF when Auth is called and switched on while the exchange is running —
 	// inside the mechanism's Start (1), its first Next (2) or its second Next (3)
 	Toggle int `json:"toggle,omitempty"`
+	// CloseAt (smtp mode, debug log on): another party closes the smtp.Client while the exchange is running — Close()
+	// lands inside the mechanism's Start (1), first Next (2) or second Next (3); 4..6 the same with Quit(). These are
+	// the only places a concurrent Close can land (a command holds the Client's mutex for its whole round trip), so
+	// calling it from there is the linearisation of that schedule.
+	CloseAt int `json:"closeat,omitempty"`
 }
 
 // togglingAuth wraps a mechanism and switches the client's debug log on at a given step of the exchange.
@@ -244,6 +249,21 @@ func c16Exec(r *vf.Run, cfg c16Cfg, c *vf.Chooser) (keys, whats []string, contro
 				tg = &togglingAuth{inner: a, at: cfg.Toggle, on: func() { cl.SetDebugLog(true) }}
 				a = tg
 			}
+			if cfg.CloseAt > 0 {
+				ca := &togglingAuth{inner: a, at: (cfg.CloseAt-1)%3 + 1, on: func() {
+					if cfg.CloseAt > 3 {
+						_ = cl.Quit()
+					} else {
+						_ = cl.Close()
+					}
+				}}
+				a = ca
+				defer func() {
+					if ca.fired {
+						r.Outcome(fmt.Sprintf("reached/closed-mid-exchange/%d", cfg.CloseAt))
+					}
+				}()
+			}
 			_ = cl.Auth(a)
 			if tg != nil && !tg.fired {
 				cl.SetDebugLog(true) // the exchange ended before that step: logging starts afterwards
@@ -394,7 +414,7 @@ func init() {
 	vf.Register(&vf.Check{
 		ID: "C16", Title: "authentication secrets never reach the debug log",
 		Run: func(r *vf.Run) {
-			r.SetRule("mechanism {PLAIN, LOGIN, CRAM-MD5, XOAUTH2, SCRAM-SHA-1, SCRAM-SHA-256, SCRAM-SHA-256-PLUS over real TLS} × 5 marker credentials (base64 padding 0/1/2, '='/',', Unicode, '%' format verbs) × logger {custom capturing, log.New, log.NewJSON} × {debug only, debug+WithLogAuthData as scanner control} × entry {mail.Client dial+send (configured by options, or constructed with auth-data logging on and then configured through SetLogger / SetDebugLog / SetLogAuthData(false)), smtp.Client Auth then NOOP, smtp.Client Auth, Auth again, then NOOP; each smtp.Client entry with and without a preceding Hello call; debug logging off at the start of Auth and switched on inside the mechanism's Start / first Next / second Next} × every server script over {conforming, 535, non-base64 challenge, extra challenge, empty challenge, drop, transport write failure on the next client line} at every AUTH step and at the EHLO that precedes AUTH {ok, write failure afterwards, 502 with HELO fallback} up to the deviation bound; the log (format, arguments, formatted line, raw output, decoded JSON msg) is scanned for the secret, its base64/hex/url-base64 forms and the exact SASL response; distinct by (configuration, script)")
+			r.SetRule("mechanism {PLAIN, LOGIN, CRAM-MD5, XOAUTH2, SCRAM-SHA-1, SCRAM-SHA-256, SCRAM-SHA-256-PLUS over real TLS} × 5 marker credentials (base64 padding 0/1/2, '='/',', Unicode, '%' format verbs) × logger {custom capturing, log.New, log.NewJSON} × {debug only, debug+WithLogAuthData as scanner control} × entry {mail.Client dial+send (configured by options, or constructed with auth-data logging on and then configured through SetLogger / SetDebugLog / SetLogAuthData(false)), smtp.Client Auth then NOOP, smtp.Client Auth, Auth again, then NOOP; each smtp.Client entry with and without a preceding Hello call; debug logging off at the start of Auth and switched on inside the mechanism's Start / first Next / second Next; the smtp.Client closed by another party (Close or Quit) inside the mechanism's Start / first Next / second Next} × every server script over {conforming, 535, non-base64 challenge, extra challenge, empty challenge, drop, transport write failure on the next client line} at every AUTH step and at the EHLO that precedes AUTH {ok, write failure afterwards, 502 with HELO fallback} up to the deviation bound; the log (format, arguments, formatted line, raw output, decoded JSON msg) is scanned for the secret, its base64/hex/url-base64 forms and the exact SASL response; distinct by (configuration, script)")
 			r.Assume("user names are not secrets", "a server that echoes credentials in its own reply text is outside the alphabet")
 			bound := 3
 			if r.Thorough {
@@ -423,7 +443,10 @@ func init() {
 									for tg := 1; tg <= 3; tg++ {
 										cfgs = append(cfgs, c16Cfg{Mech: m, Cred: cr, Logger: lg, SMTP: true, Toggle: tg})
 									}
-									cfgs = append(cfgs, c16Cfg{Mech: m, Cred: cr, Logger: lg, LogAuth: la, SMTP: sm, NoHello: true, Retry: true})
+									for ca := 1; ca <= 6; ca++ {
+									cfgs = append(cfgs, c16Cfg{Mech: m, Cred: cr, Logger: lg, SMTP: true, CloseAt: ca})
+								}
+								cfgs = append(cfgs, c16Cfg{Mech: m, Cred: cr, Logger: lg, LogAuth: la, SMTP: sm, NoHello: true, Retry: true})
 								}
 							}
 						}
@@ -476,6 +499,7 @@ func init() {
 			}
 			r.Extra("scanner_control_mechanisms_seen_with_logauthdata", hits)
 			r.Reached("reached/authenticated-client-configured-through-setters", "reached/authenticated-without-hello-call", "reached/authenticated-with-retry", "reached/authenticated-after-helo-fallback",
+				"reached/closed-mid-exchange/1", "reached/closed-mid-exchange/2", "reached/closed-mid-exchange/3", "reached/closed-mid-exchange/4", "reached/closed-mid-exchange/5", "reached/closed-mid-exchange/6",
 				"authenticated/PLAIN", "authenticated/LOGIN", "authenticated/CRAM-MD5", "authenticated/XOAUTH2", "authenticated/SCRAM-SHA-1", "authenticated/SCRAM-SHA-256", "authenticated/SCRAM-SHA-256-PLUS")
 		},
 		Replay: func(r *vf.Run, kase json.RawMessage) {
